@@ -126,6 +126,51 @@ Theorem R14_8_self_substitution_refuted :
 Proof. exact self_substitution_refuted. Qed.
 Print Assumptions R14_8_self_substitution_refuted.
 
+(* T14.9 the "whitespace-only change" guard of _do_rewrite: it fires iff the replacement and the code it
+   replaces have the same non-blank lines after rstrip() ... *)
+Theorem T14_9_skip_guard_spec :
+  forall n code : text, ws_only_change n code = true <-> sig_lines n = sig_lines code.
+Proof. exact ws_only_change_spec. Qed.
+Print Assumptions T14_9_skip_guard_spec.
+
+(* ... so a skipped rewrite has, line by line, the indentation of the code it would have replaced: a change
+   of block structure is never taken for white space ... *)
+Theorem T14_9_skipped_keeps_indentation :
+  forall n code : text,
+    ws_only_change n code = true ->
+    map count_leading_sp (filter nonblank (lines_nk n))
+    = map count_leading_sp (filter nonblank (lines_nk code)).
+Proof. exact skipped_keeps_indentation. Qed.
+Print Assumptions T14_9_skipped_keeps_indentation.
+
+(* ... and _do_rewrite leaves the text alone in exactly three situations (identical text, ignored line,
+   that guard); otherwise it splices in the replacement, "pass" for an empty one, or a re-indented copy. *)
+Theorem T14_9_do_rewrite_decision :
+  forall (valid : text -> bool) (cur : text) (r : range) (n : text),
+    let code := slice cur r in
+    (n = code \/ ignored (ignore_lines cur) r = true \/ sig_lines n = sig_lines code ->
+       do_rewrite valid cur (r, n) = cur)
+    /\ (n <> code -> ignored (ignore_lines cur) r = false -> sig_lines n <> sig_lines code ->
+        exists n', In n' (candidates n) /\ do_rewrite valid cur (r, n) = splice Z cur r n').
+Proof. exact do_rewrite_decision. Qed.
+Print Assumptions T14_9_do_rewrite_decision.
+
+(* moving the last statement of an if body out of the block is not a whitespace-only change; trailing
+   blanks and blank lines are *)
+Example T14_9_hoist_is_not_ws_only :
+  ws_only_change (text_of_string "if q:
+    f(1)
+g(2)"%string) (text_of_string "if q:
+    f(1)
+    g(2)"%string) = false
+  /\ ws_only_change (text_of_string "if q:
+    f(1)
+    g(2)  "%string) (text_of_string "if q:
+    f(1)
+
+    g(2)"%string) = true.
+Proof. vm_compute. split; reflexivity. Qed.
+
 (* non-vacuity *)
 Example T14_guard_example :
   safe (rho_of [Bin BOr (Atom 1) (Un UNot (Atom 2)); Call 7 (Bin BAdd (Atom 1) (Atom 2))])
